@@ -61,6 +61,22 @@ CHECKS.update({
    note="Trusted: the crash point is Qt's abort() right after the handler returns; synchronous logger only; real QFile buffering of the installed Qt."),
 })
 
+VS_NOTE = "Trusted: the vqt model of Qt's threading semantics (rules R1-R11, engine/vsched/vqt.cpp) as measured on the installed Qt; sequential consistency at the hooked operations; retargeting by macro leaves the library source unchanged (ownthreadhandler.h, logger.cpp, configure.cpp compiled against vqt)."
+CHECKS.update({
+ "C02": dict(engine="vsched", level=MC, design="§3, §7 C02",
+   technique="stateless preemption-bounded schedule exploration (CHESS-style iterative context bounding, one forked execution per schedule) of the real Logger / OwnThreadHandler code under a serialising scheduler",
+   text="Every interleaving up to the deviation bound of 2-4 producers logging through the real Logger (and through a bare synchronous OwnThreadHandler<Pipeline>) with yielding handlers is executed; on each: in-flight <= 1, exactly-once per qualifying sink, per-producer order, consecutive sequence numbers, no deadlock.",
+   note=VS_NOTE),
+ "C03": dict(engine="vsched", level=MC, design="§3, §7 C03",
+   technique="stateless preemption-bounded schedule exploration of producers + worker thread over the real asynchronous hand-off, field-by-field content oracle with freed caller buffers",
+   text="Every interleaving up to the deviation bound of producers and the worker of a handler moved to its own thread: every accessor of every delivered message equals the original although the caller's buffers are poisoned and freed, exactly once, per-producer FIFO, real-time order, all sinks on the worker thread, worker never holds the handler mutex inside a sink.",
+   note=VS_NOTE),
+ "C04": dict(engine="vsched", level=MC, design="§3, §7 C04",
+   technique="stateless preemption-bounded schedule exploration of every shutdown path x backlog x racing producer x dispatcher variant over the real stop/drain code, deadlock and livelock detection; each path re-run on the real Qt",
+   text="Every interleaving up to the deviation bound for the five shutdown paths (aboutToQuit, explicit reset, destructor with/without a live application object, with/without exec()), backlogs 0-3, optional racing producer and second move/reset cycle: the stop returns, everything accepted before it is delivered, nothing lost or duplicated, late messages handled synchronously, no destroyed worker touched; confirmed per path on the real Qt.",
+   note=VS_NOTE + " Racing producers only on paths 1-2."),
+})
+
 PENDING = {}
 
 def main():
